@@ -743,13 +743,19 @@ def gen_c06(tier, seed):
                     else:
                         quick = op in ("MulInplace", "Div") and pos in (0, K - 1)
                     if wide and is_div and cpu == "None":
+                        # alpha axis sliced: [0,255] whole (contains alpha = 1), elsewhere 16-wide slices
+                        # (a 256-wide slice of large alphas did not finish in 15 min)
+                        narrow_q = [(65520, 65535), (32768, 32783)] + [(b * 256 + o, b * 256 + o + 15) for b, o in
+                                                                        ((rnd.randint(1, 254), rnd.randint(0, 240)) for _ in range(2))]
                         if op == "DivInplace" and pos == 0:
-                            sl = list(range(256)) if tier == "thorough" else slices_quick
+                            sl = [(0, 255)] + narrow_q
+                            if tier == "thorough":
+                                r2 = random.Random(99 + seed)
+                                sl += [(b * 256 + o, b * 256 + o + 15) for b in range(1, 256) for o in [r2.randint(0, 240)]]
                         else:
-                            sl = slices_quick[:2] if pos == 0 else [0]
-                        for k in sl:
-                            lo, hi = k * 256, k * 256 + 255
-                            q = quick and k in slices_quick and (op == "DivInplace" or k == 0)
+                            sl = [(0, 255)]
+                        for lo, hi in sl:
+                            q = quick and (op == "DivInplace" or pos == 0) and ((lo, hi) == (0, 255) or ((lo, hi) in narrow_q[:2] and P == "U16x2"))
                             lines.append(("c06_%s_none_%s_i%d_a%d" % (P.lower(), op.lower(), pos, lo), "quick" if q else "thorough", P, K, N, cpu, op, pos, lo, hi))
                     elif wide and is_div:
                         for lo, hi in ((0, 255), (256, 65535)):
@@ -771,7 +777,7 @@ def gen_c06(tier, seed):
         src.append("// @h %s | prop=C06 | tier=%s | t=1800 | mem=4 | flags=stub --no-assertion-reach-checks | enc=%s | bounds=%s | assume=x86 intrinsic models (x86_model.rs, differential-tested)" % (name, tr, enc, bnd))
         src.append("c06!(%s, %s, %d, %d, %s, %s, %d, %d, %d, %d);" % (name, P, K, N, cpu, op, pos, lo, hi, K * N + 2))
     (KH / "src" / "gen_c06.rs").write_text("\n".join(src) + "\n")
-    return {"instances": n_inst, "alpha_slices_quick_16bit_divide": slices_quick}
+    return {"instances": n_inst, "alpha_slices": sorted(set((l[8], l[9]) for l in lines if l[6].startswith("Div") and l[5] == "None" and l[2].startswith("U16")))[:40]}
 
 
 def p_add(insts, prop, name, tr, pixel, cpu, sw, sh, dw, dh, crop, alg, dst=("exact",), **kw):
